@@ -100,7 +100,7 @@ fn gen_string(rng: &mut Rng) -> String {
     let mut s = match rng.below(4) {
         0 => String::new(),
         1 => String::with_capacity(rng.below(64) as usize),
-        2 => "x".repeat(rng.below(20) as usize),
+        2 => if rng.bool() { "x".repeat(rng.below(20) as usize) } else { "\u{fc}\u{4e16}".repeat(rng.below(8) as usize) },
         _ => {
             let mut s = String::with_capacity(rng.below(40) as usize);
             s.push_str(&"ab".repeat(rng.below(8) as usize));
@@ -114,14 +114,23 @@ fn gen_string(rng: &mut Rng) -> String {
 }
 
 fn step_string(s: &mut String, rng: &mut Rng) {
-    match rng.below(9) {
+    match rng.below(11) {
         0 => s.push_str(&"q".repeat(rng.below(24) as usize)),
         1 => s.push('z'),
+        // multi-byte characters: byte length != number of chars
+        9 => s.push_str(&"\u{e9}\u{2211}".repeat(rng.below(6) as usize)),
+        10 => s.push('\u{1f980}'),
         2 => s.reserve(rng.below(50) as usize),
         3 => s.reserve_exact(rng.below(50) as usize),
         4 => s.shrink_to_fit(),
         5 => s.shrink_to(rng.below(30) as usize),
-        6 => s.truncate(rng.below(10) as usize),
+        6 => {
+            let mut n = (rng.below(10) as usize).min(s.len());
+            while !s.is_char_boundary(n) {
+                n -= 1;
+            }
+            s.truncate(n);
+        }
         7 => s.clear(),
         _ => {
             s.pop();
@@ -130,6 +139,11 @@ fn step_string(s: &mut String, rng: &mut Rng) {
 }
 
 fn gen_vec<T>(rng: &mut Rng, elem: &dyn Fn(&mut Rng) -> T) -> Vec<T> {
+    // once in a while a long collection (implementations may process slices in chunks)
+    if rng.chance(1, 400) {
+        let n = *rng.pick(&[4095usize, 4096, 4097, 5000, 8193]);
+        return (0..n).map(|_| elem(rng)).collect();
+    }
     let mut v = match rng.below(3) {
         0 => Vec::new(),
         1 => Vec::with_capacity(rng.below(20) as usize),
@@ -196,7 +210,8 @@ fn gen_osstring(rng: &mut Rng) -> OsString {
 
 fn step_osstring(s: &mut OsString, rng: &mut Rng) {
     match rng.below(6) {
-        0 | 1 => s.push("w".repeat(rng.below(20) as usize)),
+        0 => s.push("w".repeat(rng.below(20) as usize)),
+        1 => s.push("\u{e4}\u{20ac}".repeat(rng.below(6) as usize)),
         2 => s.reserve(rng.below(40) as usize),
         3 => s.reserve_exact(rng.below(40) as usize),
         4 => s.shrink_to_fit(),
